@@ -468,6 +468,31 @@ def check(ctx: Ctx) -> None:
         ctx.distinct.add(json.dumps([KINDS[k % len(KINDS)], key]))
         n += 1
     ctx.sections["interleavings_replayed"] = n
+    # ---- "... or dtypes the same hedger or features were used with before": behaviours of the dtype machine (Dtype.tla:
+    # to()/float()/double()/half()/simulate()/register_buffer/set_default_dtype) with hedger objects that live through them,
+    # compared after every operation with freshly built ones (the replay of checks/c17.py; only its reuse verdicts count here)
+    from checks import c17
+    dsim = ctx.tlc("MC_Dtype", "MC_Dtype_sim.cfg", workers=4, simulate=f"num={120 if ctx.tier == 'quick' else 1200}", depth=8, seed=ctx.seed + 21)
+    saved_default = torch.get_default_dtype()
+    probe_d = Ctx.__new__(Ctx)
+    probe_d.__dict__.update({"_per_key": {}, "violations": [], "findings": [], "known_hits": {}, "evaluations": 0, "distinct": set(), "skipped": {}})
+    nd = 0
+    try:
+        seen_d = set()
+        for k, rec in enumerate(dsim.records):
+            key = json.dumps([rec["init"], [[e["op"], e["p"], e["d"], e["how"], e["via"]] for e in rec["hist"]]])
+            if key in seen_d or len(rec["hist"]) < 5:
+                continue
+            seen_d.add(key)
+            c17.replay_history(probe_d, rec, computed=True, variant=k)
+            nd += 1
+    finally:
+        torch.set_default_dtype(saved_default)
+    for v in probe_d.violations:
+        if ":reused:" in v["key"]:
+            ctx.violation(v["key"], v["what"], v.get("detail"))
+    ctx.count(n=probe_d.evaluations)
+    ctx.sections["dtype_histories_with_long_lived_hedgers"] = nd
     ctx.sample({"interleaving": [[e["op"], e["h"], e["d"], e["n"]] for e in sim.records[0]["hist"]]})
     # ---- code -> spec
     traces = record_sessions(ctx.seed + 11, 60 if ctx.tier == "quick" else 600, 14)
